@@ -422,10 +422,25 @@ def gen_lazy(rng):
     return assemble(fk, pb, P, ws, has_norm, nb, flags, syms, qs)
 
 
+def gen_symcount(rng):
+    """C19: well-formed weights, but the non-contiguous `_fast` constructors get one symbol too many
+    or one too few (flags 16 / 32)."""
+    fk = rng.choice([0, 1])
+    pb = rng.choice([8, 16, 16, 32])
+    P = rng.choice([p for p in MENU[pb] if p >= 3])
+    n = rng.randint(2, min(12, (1 << P) - 3))
+    ws = gen_weights(rng, fk, n, "plain")
+    syms, qs = gen_queries(rng, P, n, nmax_sym=4, nmax_q=6)
+    flags = 1 | rng.choice([16, 16, 32])
+    return assemble(fk, pb, P, ws, 0, 0, flags, syms, qs)
+
+
 def gen_malformed(rng):
     """C19: every IEEE class in every position, all-zero, empty / one entry, negative entries,
     NaN / inf / zero / negative / denormal / far too small / far too large normalisation,
     too many symbols for the precision, sums that overflow."""
+    if rng.random() < 0.12:
+        return gen_symcount(rng)
     fk, pb, P = pick_instance(rng)
     sv = special_values(fk)
     kind = rng.choice(["class_at", "class_at", "class_at", "allzero", "short", "negatives", "norm", "norm",
@@ -764,7 +779,15 @@ def oracle_c19(inp, out):
         m = table_problem(r["E"]["table"], n, P)
         if m:
             return "eager constructor accepted the input but: " + m
+    if c["flags"] & 48:
+        for key in ("ncd", "nce", "ncl"):
+            d = r.get("V", {}).get(key)
+            if d and d["status"] == 0:
+                return ("%s `_fast` constructor accepted %d symbols for %d probabilities"
+                        % (key, n + (1 if c["flags"] & 16 else -1), n))
     for key, d in r.get("V", {}).items():
+        if c["flags"] & 48 and key != "cl":
+            continue
         if d["status"] == 0 and "table" in d:
             m = table_problem(d["table"], n, P, relabelled=key in ("ncd", "ncl"))
             if m:
